@@ -335,3 +335,34 @@ func Harness_C01_table_logs() {
 	}
 	VerifCover("done")
 }
+
+// Harness_C01_table_boundary: sweeps the size of a ref block across the block size, byte by byte, with a log section (or further ref blocks) following directly.
+// bounds: BlockSize 128 x Unaligned; 2..3 refs where the last one is a symbolic ref whose target length takes every value 0..120 (so the ref block takes every length up to and beyond the block size and the record moves to a new block), followed by 0..1 reflog entries; target bytes and one hash byte symbolic
+// covers: done, rejected
+func Harness_C01_table_boundary() {
+	cfg := Config{BlockSize: 128, Unaligned: VerifChoose(2) == 1, RestartInterval: 1 + VerifChoose(2)}
+	g := &genCfg{hashSize: 20, hashFree: 1, idxSmall: true, asciiMsg: true, nameLen: 1}
+	var refs []*RefRecord
+	refs = append(refs, &RefRecord{RefName: "a", UpdateIndex: 1, Value: genHash(g, 0x11)})
+	if VerifChoose(2) == 1 {
+		refs = append(refs, &RefRecord{RefName: "b", UpdateIndex: 2, Value: genHash(g, 0x22)})
+	}
+	l := VerifIntRange(0, 120)
+	tgt := make([]byte, l)
+	for i := range tgt {
+		tgt[i] = 'x'
+	}
+	if l > 0 {
+		tgt[l-1] = VerifU8()
+	}
+	refs = append(refs, &RefRecord{RefName: "c", UpdateIndex: 1, Target: string(tgt)})
+	var logs []*LogRecord
+	if VerifChoose(2) == 1 {
+		logs = append(logs, &LogRecord{RefName: "a", UpdateIndex: 1, Time: 5, New: genHash(g, 0x44), Old: genHash(g, 0x55), Message: "m\n"})
+	}
+	if !tableRoundTrip(cfg, 1, 2, refs, logs) {
+		VerifCover("rejected")
+		return
+	}
+	VerifCover("done")
+}
